@@ -1715,6 +1715,33 @@ def roundtrip_suite(world, pool, tier, rng):
                                                "want_obs": want_obs}))
                 world.op("ck 0 verify @last", tag="verify")
                 world.op("clock 5000", tag="cfg")
+    # sizes: many members, deep nesting, long strings -- the token says what the builder was told at every size
+    kbp = world.add_key(s + 8, pool.keys["oct32"], private=True, alg_attr="HS256")
+    world.op("prov name " + hx(b"openssl"), tag="cfg")
+    world.op("clock 5000", tag="cfg")
+    shapes = []
+    for n_ in ([0, 1, 7, 8, 9, 15, 16, 17, 31, 32, 33, 63, 64, 65, 127, 128, 129, 255, 256, 257] + ([1000, 5000] if thorough else [700])):
+        shapes.append(("%d members" % n_, {"m%d" % i: i for i in range(n_)}))
+    for d_ in ([1, 2, 7, 8, 9, 15, 16, 17, 31, 32, 33, 64, 100] + ([400] if thorough else [])):
+        t_ = {"leaf": d_}
+        for _ in range(d_):
+            t_ = {"n": t_} if _ % 2 else {"a": [t_]}
+        shapes.append(("nesting depth %d" % d_, t_))
+    for l_ in [0, 1, 2, 15, 16, 17, 255, 256, 257, 1023, 1024, 1025, 4095, 4096, 4097] + ([65535, 65536, 65537, 300000] if thorough else [70000]):
+        shapes.append(("string of %d characters" % l_, {"s": "x" * l_, "u": "é" * min(l_, 2000)}))
+    for what, tree in shapes:
+        world.op("bl 6 new", tag="cfg")
+        world.op("bl 6 setkey 0 %d %d" % kbp, tag="cfg")
+        world.op("bl 6 iat 0", tag="cfg")
+        world.op("bl 6 cset json - %s 1" % hx(JL.dumps(tree)), tag="cfg")
+        world.op("bl 6 hset json - %s 1" % hx(JL.dumps({"x": tree} if len(JL.dumps(tree)) < 20000 else {"x": 1})), tag="cfg")
+        eh = {"alg": "HS256", "typ": "JWT", "x": tree if len(JL.dumps(tree)) < 20000 else 1}
+        metas.append((len(world.ops), {"kind": "gen", "hdr": JL.jenc(eh), "pay": JL.jenc(tree), "alg": "HS256", "now": 5000, "seq": "size: " + what, "prog": None}))
+        world.op("bl 6 gen", tag="gen")
+        world.op("ck 6 new", tag="cfg")
+        world.op("ck 6 setkey 0 %d %d" % kbp, tag="cfg")
+        metas.append((len(world.ops), {"kind": "verify-generated", "key": "oct32", "alg": "HS256", "sign": "openssl", "verify": "openssl", "want_obs": None}))
+        world.op("ck 6 verify @last", tag="verify")
     # a session: ONE builder and ONE checker with a default key, a callback that picks another key for some
     # tokens only (the kid-with-fallback pattern); every token must come out under the key in force for it
     # and verify on the long-lived checker
@@ -2284,6 +2311,35 @@ def keyring_suite(world, pool, tier, rng):
                 w = "none" if i >= len(lst) else ("kid=%s err=%d" % (hx(lst[i][0].encode()) if lst[i][0] is not None else "NULL", 1 if lst[i][1] else 0))
                 metas.append((len(world.ops), {"kind": "kr-item", "op": "get %d" % i, "want": w}))
                 world.op("jwks %d item %d" % (S0, i), tag="kr")
+    # keyrings of every size around the powers of two (and a big one): count, first / middle / last / one-past item,
+    # lookups of the first, middle, last and a missing kid, removal in the middle, lookups again
+    sizes = [0, 1, 2, 3, 7, 8, 9, 15, 16, 17, 31, 32, 33, 63, 64, 65, 100, 127, 128, 129, 255, 256, 257] + ([1000, 4096] if tier == "thorough" else [600])
+    kb = pool.keys["oct32"]
+    for n in sizes:
+        world.op("jwks %d del" % S0, cmp=False, tag="cfg")
+        kids = ["kid-%d" % i for i in range(n)]
+        doc = json.dumps({"keys": [kb.jwk(extra={"kid": k_}) for k_ in kids]}).encode()
+        world.load_doc(S0, doc, "strn", tag="cfg")
+        lst = [(k_, False) for k_ in kids]
+
+        def probe(tag_):
+            metas.append((len(world.ops), {"kind": "kr", "op": "count (%d keys%s)" % (n, tag_), "want": str(len(lst))}))
+            world.op("jwks %d count" % S0, tag="kr")
+            for i in sorted({0, 1, len(lst) // 2, len(lst) - 2, len(lst) - 1, len(lst)} - {-1, -2}):
+                w = "none" if i >= len(lst) else "kid=%s err=0" % hx(lst[i][0].encode())
+                metas.append((len(world.ops), {"kind": "kr-item", "op": "get %d of %d%s" % (i, len(lst), tag_), "want": w}))
+                world.op("jwks %d item %d" % (S0, i), tag="kr")
+            for k_ in ([lst[0][0], lst[len(lst) // 2][0], lst[-1][0]] if lst else []) + ["kid-missing", "kid-%d" % n]:
+                want = next((i for i, (kk, _) in enumerate(lst) if kk == k_), -1)
+                metas.append((len(world.ops), {"kind": "kr", "op": "find %s among %d%s" % (k_, len(lst), tag_), "want": str(want)}))
+                world.op("jwks %d find %s" % (S0, hx(k_.encode())), tag="kr")
+        probe("")
+        if lst:
+            idx = len(lst) // 2
+            metas.append((len(world.ops), {"kind": "kr", "op": "free %d of %d" % (idx, len(lst)), "want": "1"}))
+            world.op("jwks %d free %d" % (S0, idx), tag="kr")
+            lst = lst[:idx] + lst[idx + 1:]
+            probe(" after a removal")
     world.op("jwks %d del" % S0, cmp=False, tag="cfg")
     return metas
 
